@@ -22,7 +22,35 @@ __CPROVER_requires(1U <= m && m <= 12U)
 __CPROVER_assigns()
 __CPROVER_ensures(__CPROVER_return_value == (unsigned int)S_MDAYS(y, m));
 
+/* scale helpers (scale.c) by contract: the obligations below fix the scale to
+ * GREGORIAN (the table-based Hijri scales report month length 0 outside
+ * their coverage, which the fillers divide by - not covered here) */
+unsigned int echs_scale_ndim(echs_scale_t s, unsigned int y, unsigned int m)
+__CPROVER_requires(s == SCALE_GREGORIAN && 1U <= m && m <= 12U)
+__CPROVER_assigns()
+__CPROVER_ensures(__CPROVER_return_value == (unsigned int)S_MDAYS(y, m));
+echs_wday_t echs_scale_wday(echs_scale_t s, unsigned int y, unsigned int m, unsigned int d)
+__CPROVER_requires(s == SCALE_GREGORIAN && 1U <= m && m <= 12U && 1U <= d && d <= 31U)
+__CPROVER_assigns()
+__CPROVER_ensures(1U <= (unsigned)__CPROVER_return_value && (unsigned)__CPROVER_return_value <= 7U);
+echs_instant_t echs_instant_rescale(echs_instant_t i, echs_scale_t tgt)
+__CPROVER_requires(tgt == SCALE_GREGORIAN)
+__CPROVER_assigns()
+__CPROVER_ensures(__CPROVER_return_value.u == i.u);
+struct enum_s;
+typedef const struct rrulsp_s *rrulsp_t;
+
 #include "evrrul.c"
+
+/* make_enum by contract (its loops are iterator walks like the mask loops):
+ * between 1 and 24/60/60 entries */
+static int make_enum(struct enum_s *restrict tgt, echs_instant_t proto, rrulsp_t rr)
+__CPROVER_requires(__CPROVER_is_fresh(tgt, sizeof(*tgt)))
+__CPROVER_assigns(__CPROVER_object_whole(tgt))
+__CPROVER_ensures(1U <= tgt->nH && tgt->nH <= 24U && 1U <= tgt->nM && tgt->nM <= 60U && 1U <= tgt->nS && tgt->nS <= 60U);
+size_t rrul_fill_wly(echs_instant_t *restrict tgt, size_t nti, rrulsp_t rr)
+__CPROVER_assigns(__CPROVER_object_upto(tgt, 2U * GRP_CCH_OFF * sizeof(*tgt)))
+__CPROVER_ensures(__CPROVER_return_value <= nti);
 
 #define NTI	64U
 static echs_instant_t g_tgt[2U * NTI];
@@ -77,3 +105,31 @@ void h_C09_##NAME(void)								\
 	SENTINEL(#NAME);							\
 }
 H_FILLER(Sly, rrul_fill_Sly)
+
+/* DAILY: memory safety, <= nti, <= COUNT, termination, within [DTSTART, UNTIL] */
+void h_C09_dly(void)
+{
+	IN_INSTANT_FIELDS(proto);
+	IN_INSTANT_FIELDS(until);
+	IN_RANGE(size_t, nti, 1, NTI);
+	IN_RANGE(int, count, -1, 1000);
+	IN_RANGE(unsigned, inter, 1, RR_INTER_MAX);
+	IN_RANGE(size_t, k, 0, NTI - 1);
+	ASSUME(I_VALID(proto) && !I_ALLSEC(proto) && proto.ms == 0U);
+	ASSUME(until.u == ~0ULL || I_VALID(until));
+	g_rr.freq = FREQ_DAILY, g_rr.scale = SCALE_GREGORIAN;
+	g_rr.count = count, g_rr.inter = inter, g_rr.until = until;
+	H_SETS();
+	ASSUME(RR_WF(&g_rr));
+	g_tgt[0] = proto;
+	verif_j = k, verif_k = k;
+	size_t r = rrul_fill_dly(g_tgt, nti, &g_rr);
+	ASSERT(r <= nti, "rrul_fill_dly: never returns more than asked for");
+	ASSERT(count < 0 || r <= (size_t)count, "rrul_fill_dly: never more than COUNT");
+	if (k < r && (g_rr.inter != 1U || !(g_rr.dow.pos[0]))) {
+		ASSERT(!echs_instant_lt_p(g_tgt[k], proto), "rrul_fill_dly: no occurrence before DTSTART");
+		ASSERT(!echs_instant_lt_p(until, g_tgt[k]), "rrul_fill_dly: no occurrence after UNTIL");
+		SENTINEL("dly an occurrence");
+	}
+	SENTINEL("dly");
+}
